@@ -560,7 +560,21 @@ func runC03(r *rt.Runner) {
 				g := &g3{rng: rng, feat: map[string]bool{}, maxD: 2, multiDict: true}
 				progs = append(progs, g.body(0, 0))
 			}
-			out := env.runPSHistory(c, progs, "history")
+			var raw []string
+			if rng.IntN(3) == 0 {
+				// the first call ends by stop or by an error with the NEXT byte of
+				// its input a delimiter (nothing of that input may reach the next call)
+				tight := []string{"1 stop(abc)", "1 stop/x 2", "1 (a) add[ 3 ]", "nosuchname<41>", "1 stop%comment", "2 stop{ 5 }", "1 (a) add/y", "3 stop<< /k 1 >>", "{ 4 stop } exec(rest)", "1 stop\n%%Title: left over\n"}
+				t := tight[rng.IntN(len(tight))]
+				progs[0] = ref.MustParse(t)
+				raw = []string{t}
+				if rng.IntN(2) == 0 && len(progs) > 1 {
+					nxt := []string{"%%Title: next call\n7 8", "(s) length", "/k 5 def k", "[ 1 2 ] length"}[rng.IntN(4)]
+					progs[1] = ref.MustParse(nxt)
+					raw = append(raw, nxt)
+				}
+			}
+			out := env.runPSHistory(c, progs, "history", raw...)
 			c.Count("history -> " + out)
 			if out != "unsupported" {
 				var sb strings.Builder
